@@ -14,7 +14,7 @@ import json
 import os
 
 MAX_PAIRS = 40
-MAX_EVENTS = 400
+MAX_EVENTS = int(os.environ.get("X02_MAX_EVENTS", "400"))
 _events = []
 _skipped = {}
 _depth = 0
